@@ -246,17 +246,35 @@ def gen_script(rng, max_ops, profile):
             if not hs or depth or not spals:
                 continue
             h = rng.pick(hs)
-            sp = rng.pick(spals)
-            if sp != min(spals) and min(spals) not in st.shared.get(h, set()):
-                sp = min(spals)     # known finding C12/shared-assign-order: one assignment order per script
+            cur = st.shared.get(h, set())
+            # known finding C12/shared-assign-order: the archetype key is the SEQUENCE of shared values, so every entity gets its
+            # shared types in increasing order (a replacement keeps the position)
+            cand = [x for x in spals if x in cur or not cur or x > max(cur)]
+            sp = rng.pick(cand)
             lines.append('assignshared #%d %d %d' % (h, sp, rng.range(1, 3)))
             st.shared.setdefault(h, set()).add(sp)
+        elif choice == 'sharedfill':
+            # give one entity every shared type (in increasing order), then remove one of them: the remaining values must
+            # stay with their own types
+            hs = [h for h in live_handles() if h not in st.pending_new]
+            if not hs or depth or len(spals) < 2:
+                continue
+            h = rng.pick(hs)
+            cur = st.shared.setdefault(h, set())
+            for sp in spals:
+                if sp in cur or (cur and sp < max(cur)):
+                    continue
+                lines.append('assignshared #%d %d %d' % (h, sp, rng.range(1, 3)))
+                cur.add(sp)
+            sp = rng.pick(sorted(cur))
+            lines.append('removeshared #%d %d' % (h, sp))
+            cur.discard(sp)
         elif choice == 'removeshared':
             hs = [h for h in live_handles() if st.shared.get(h)]
             if not hs or depth:
                 continue
             h = rng.pick(hs)
-            sp = max(st.shared[h])      # remove in reverse order of assignment (see C12/shared-assign-order)
+            sp = rng.pick(sorted(st.shared[h]))      # any of them: the remaining ones stay in increasing order
             lines.append('removeshared #%d %d' % (h, sp))
             st.shared[h].discard(sp)
         elif choice == 'burst':
@@ -423,11 +441,11 @@ def profile(name):
         p['create_shared'] = False
         p['weights'].update({'assignshared': 3, 'removeshared': 1})
     elif name == 'C12':
-        p['shared'] = [0, 1]
+        p['shared'] = [0, 1, 2]
         p['create_shared'] = False     # known finding C12/creation-time-shared-instance
         p['pals'] = [0, 1, 2, 3]
         p['threads'] = [0, 1]
-        p['weights'].update({'assignshared': 16, 'removeshared': 7, 'create': 20, 'lock': 4, 'unlock': 6})
+        p['weights'].update({'assignshared': 16, 'removeshared': 7, 'create': 20, 'lock': 4, 'unlock': 6, 'sharedfill': 3})
     elif name in ('C04', 'C07', 'C11'):
         p['pals'] = [0, 1, 2, 4] if name != 'C04' else [0, 1, 2, 3, 4, 8]
         p['threads'] = [1, 2, 3, 7]
